@@ -318,7 +318,8 @@ def make_model(mspec):
       if flat or seq:
         continue
       if t == "qconv":
-        x = QConv2D(2, (2, 2), kernel_quantizer=qz(l.get("kq"), (i, "k")),
+        x = QConv2D(2, (2, 2), padding="same",
+                    kernel_quantizer=qz(l.get("kq"), (i, "k")),
                     bias_quantizer=qz(l.get("bq"), (i, "b")), name=name)(x)
       elif t == "qdw":
         x = qk.QDepthwiseConv2D((2, 2), padding="same",
